@@ -464,3 +464,532 @@ def all_line(case):
     cs, encs = charset_args(lines, case['language'])
     return (f'hdr all {int(kind == "pot")} {int(kind == "mo")} {hexs(case["comments"])} {entries_arg(es)} {NOW_US} '
             f'{fuzzy_arg(es)} {field_arg(es)} {a} {s} {l} {cs} {encs}')
+
+# ------------------------------------------------------------------ the reference: Appendix A, from data/tags and the statement
+
+DEDICATED = {'Content-Transfer-Encoding', 'Content-Type', 'Language', 'Language-Team', 'Last-Translator', 'MIME-Version', 'PO-Revision-Date',
+             'POT-Creation-Date', 'Plural-Forms', 'Project-Id-Version', 'Report-Msgid-Bugs-To', 'X-Poedit-Country', 'X-Poedit-Language'}
+
+SPECIAL_USE = [('in-addr.arpa', False), ('ip6.arpa', False), ('test', True), ('localhost', True), ('invalid', True), ('example', True),
+               ('example.com', True), ('example.net', True), ('example.org', True), ('local', False)]
+
+def ref_special_domain(domain):
+    d = domain.lower()
+    for suffix, bare in SPECIAL_USE:
+        if bare and d == suffix:
+            return True
+        if d.endswith('.' + suffix):
+            labels = d[:-len(suffix) - 1]
+            if labels and '\n' not in labels:
+                return True
+    return False
+
+def ref_addr_verdict(addr, boiler):
+    """'reserved' | 'boilerplate' | 'dotless' | 'fine' for an address containing @ (documented order of precedence)"""
+    domain = addr[addr.rindex('@') + 1:]
+    if ref_special_domain(domain):
+        return 'reserved'
+    if addr in boiler:
+        return 'boilerplate'
+    if '.' not in domain:
+        return 'dotless'
+    return 'fine'
+
+UNUSUAL_RE = None
+def ref_unusual(text):
+    """the unusual-character class of the documentation: C0 except TAB LF ESC, ESC not starting a CSI, DEL, C1, BOM, U+FFFD,
+    the two BMP non-characters, and an inverted question mark directly after a letter"""
+    out = set()
+    for i, ch in enumerate(text):
+        o = ord(ch)
+        if o <= 0x08 or 0x0B <= o <= 0x1A or 0x1C <= o <= 0x1F or o == 0x7F or 0x80 <= o <= 0x9F or o in (0xFEFF, 0xFFFD, 0xFFFE, 0xFFFF):
+            out.add(ch)
+        elif o == 0x1B and text[i + 1:i + 2] != '[':
+            out.add(ch)
+        elif o == 0xBF and i > 0 and re.fullmatch(r'\w', text[i - 1]):
+            out.add(ch)
+    return sorted(out)
+
+COMMENT_ALWAYS = [r'\bPACKAGE package\b', r'\bCopyright \S+ YEAR\b', r"\bTHE PACKAGE'S COPYRIGHT HOLDER\b"]
+COMMENT_TRANSLATED = [r'\bFIRST AUTHOR\b', r'<EMAIL@ADDRESS>', r'(?<=>), YEAR\b']
+
+def ref_charset_tags(ct, enc, template, language):
+    """the charset verdicts (C20's classification asked of lib.encodings directly): (tags, kept encoding)"""
+    E = M()[3]
+    out = []
+    try:
+        compatible = E.is_ascii_compatible_encoding(enc, missing_ok=False)
+    except E.EncodingLookupError:
+        if enc == 'CHARSET':
+            if not template:
+                out.append(('boilerplate-in-content-type', ('s:' + hexs(ct),)))
+        else:
+            out.append(('unknown-encoding', ('s:' + hexs(enc),)))
+        return out, None
+    kept = enc
+    if not compatible:
+        out.append(('non-ascii-compatible-encoding', ('s:' + hexs(enc),)))
+    elif not E.is_portable_encoding(enc):
+        new = E.propose_portable_encoding(enc)
+        if new is not None:
+            out.append(('non-portable-encoding', ('s:' + hexs(enc), 's:' + hexs('=>'), 's:' + hexs(new))))
+            kept = new
+        else:
+            out.append(('non-portable-encoding', ('s:' + hexs(enc),)))
+    if language is not None:
+        un = language.get_unrepresentable_characters(kept)
+        if un:
+            if len(un) > 5:
+                un = un[:4] + ['...']
+            out.append(('unrepresentable-characters', tuple(['s:' + hexs(kept)] + ['s:' + hexs(c) for c in un])))
+    return out, kept
+
+def ref_tags(case):
+    """Counter of (tag, extras) the rule set prescribes for a case; None if the reference cannot decide (library error)"""
+    import date_common as D
+    out = collections.Counter()
+    def emit(name, *extras):
+        out[(name, tuple(extras))] += 1
+    s = lambda v: 's:' + hexs(v)
+    S = lambda v: 'S:' + hexs(v)
+    kind = case['kind']
+    template, binary = kind == 'pot', kind == 'mo'
+    # initial comments
+    pats = COMMENT_ALWAYS + ([] if template else COMMENT_TRANSLATED)
+    for line in case['comments'].splitlines():
+        if any(re.search(p, line) for p in pats):
+            emit('boilerplate-in-initial-comments', s(line))
+    # header entry
+    hs = header_entries(case['entries'])
+    lines = []
+    if len(hs) >= 2:
+        emit('duplicate-header-entry')
+    if hs:
+        i, e = hs[0]
+        text = header_text_of(e)
+        if i != 0:
+            emit('distant-header-entry')
+        if e['occurrences']:
+            emit('empty-msgid-message-with-source-code-references', *[s(p + ':' + l) for p, l in e['occurrences']])
+        if e['plural'] is not None:
+            emit('empty-msgid-message-with-plural-forms')
+        flags = collections.Counter(e['flags'])
+        for fl, n in flags.items():
+            if fl == 'fuzzy':
+                if not template:
+                    emit('fuzzy-header-entry')
+            elif close_fuzzy(fl):
+                emit('unexpected-flag-for-header-entry', s(fl), s('=>'), s('fuzzy'))
+            else:
+                emit('unexpected-flag-for-header-entry', s(fl))
+            if n > 1:
+                emit('duplicate-flag-for-header-entry', s(fl))
+        un = ref_unusual(text)
+        if un:
+            import unicodedata
+            E = M()[3]
+            try:
+                emit('unusual-character-in-header-entry', S(', '.join(f'U+{ord(c):04X} {E.get_character_name(c)}' for c in un)))
+            except Exception:
+                return None
+        lines = ref_parse_header(text)
+    # stray lines
+    seen_marker = False
+    for x in lines:
+        if x[0] != 'S':
+            continue
+        l = x[1]
+        if l.startswith('#-#-#-#-#  ') and l.endswith('  #-#-#-#-#') and len(l) >= 23:
+            if not seen_marker:
+                emit('conflict-marker-in-header-entry', s(l))
+                seen_marker = True
+        else:
+            emit('stray-header-line', s(l))
+    fields = [(x[1], x[2]) for x in lines if x[0] == 'F']
+    names = []
+    for k, _ in fields:
+        if k not in names:
+            names.append(k)
+    vals = lambda k: [v for kk, v in fields if kk == k]
+    distinct = lambda k: sorted(set(vals(k)))
+    # names
+    reg = registered_fields()
+    for k in names:
+        if not (k.startswith('X-') or k.startswith('x-')) and k not in reg:
+            hint = None
+            for r in reg:
+                if r.lower() == k.lower():
+                    hint = r
+            if hint is None:
+                hint = close_field(k)
+            if hint is not None and hint in names:
+                hint = None
+            if hint is None:
+                emit('unknown-header-field', s(k))
+            else:
+                emit('unknown-header-field', s(k), s('=>'), s(hint))
+        if len(vals(k)) > 1 and k not in DEDICATED:
+            emit('duplicate-header-field', s(k))
+    # MIME-Version, Content-Transfer-Encoding
+    for field, good, low in (('MIME-Version', '1.0', 'mime-version'), ('Content-Transfer-Encoding', '8bit', 'content-transfer-encoding')):
+        if not vals(field):
+            emit(f'no-{low}-header-field', S(f'{field}: {good}'))
+        if len(vals(field)) > 1:
+            emit(f'duplicate-header-field-{low}')
+        for v in distinct(field):
+            if v != good:
+                emit(f'invalid-{low}', s(v), s('=>'), s(good))
+    # Content-Type
+    cts = vals('Content-Type')
+    if not cts:
+        emit('no-content-type-header-field', S('Content-Type: text/plain; charset=<encoding>'))
+    if len(cts) > 1:
+        emit('duplicate-header-field-content-type')
+    language = parse_lang(case['language'])
+    for ct in distinct('Content-Type'):
+        m = re.search(r'(\Atext/plain; )?\bcharset=([^\s;]+)\Z', ct)
+        if not m:
+            emit('invalid-content-type', s(ct), s('=>'), s('text/plain; charset=<encoding>'))
+            continue
+        try:
+            ctags, kept = ref_charset_tags(ct, m.group(2), template, language)
+        except Exception:
+            return None
+        for name, extras in ctags:
+            emit(name, *extras)
+        if m.group(1) is None:
+            emit('invalid-content-type', s(ct), s('=>'), s('text/plain; charset=' + (kept if kept is not None else '<encoding>')))
+    # dates (C18's reference)
+    r = D.ref_tags(D.Ctx(cts[0] if cts else None, binary, template, vals('POT-Creation-Date'), vals('PO-Revision-Date'), NOW_US))
+    if r[0] != 'ok':
+        return None
+    for name, args in r[1]:
+        emit(name, *[k + ':' + hexs(t) for k, t in args])
+    # Project-Id-Version
+    pv = vals('Project-Id-Version')
+    if not pv:
+        emit('no-project-id-version-header-field')
+    if len(pv) > 1:
+        emit('duplicate-header-field-project-id-version')
+    for v in distinct('Project-Id-Version'):
+        if v in ('PACKAGE VERSION', 'PROJECT VERSION'):
+            emit('boilerplate-in-project-id-version', s(v))
+        else:
+            if not any(c != '_' and re.fullmatch(r'\w', c) and not re.fullmatch(r'\d', c) for c in v):
+                emit('no-package-name-in-project-id-version', s(v))
+            if not any(c in '0123456789' for c in v):
+                emit('no-version-in-project-id-version', s(v))
+    # Report-Msgid-Bugs-To
+    rv = vals('Report-Msgid-Bugs-To')
+    if len(rv) > 1:
+        emit('duplicate-header-field-report-msgid-bugs-to')
+    if all(v == '' for v in rv):
+        emit('no-report-msgid-bugs-to-header-field')
+    else:
+        for v in distinct('Report-Msgid-Bugs-To'):
+            a = parseaddr(v)
+            if '@' not in a:
+                if not url_scheme(v):
+                    emit('invalid-report-msgid-bugs-to', s(v))
+            else:
+                verdict = ref_addr_verdict(a, {'EMAIL@ADDRESS'})
+                if verdict in ('reserved', 'dotless'):
+                    emit('invalid-report-msgid-bugs-to', s(v))
+                elif verdict == 'boilerplate':
+                    emit('boilerplate-in-report-msgid-bugs-to', s(v))
+    # Last-Translator
+    lt = vals('Last-Translator')
+    if not lt:
+        emit('no-last-translator-header-field')
+    if len(lt) > 1:
+        emit('duplicate-header-field-last-translator')
+    for v in distinct('Last-Translator'):
+        a = parseaddr(v)
+        if '@' not in a:
+            emit('invalid-last-translator', s(v))
+        else:
+            verdict = ref_addr_verdict(a, {'EMAIL@ADDRESS'})
+            if verdict in ('reserved', 'dotless'):
+                emit('invalid-last-translator', s(v))
+            elif verdict == 'boilerplate' and not template:
+                emit('boilerplate-in-last-translator', s(v))
+    # Language-Team
+    tv = vals('Language-Team')
+    if not tv:
+        emit('no-language-team-header-field')
+    if len(tv) > 1:
+        emit('duplicate-header-field-language-team')
+    for v in distinct('Language-Team'):
+        a = parseaddr(v)
+        if '@' not in a:
+            continue
+        verdict = ref_addr_verdict(a, {'EMAIL@ADDRESS', 'LL@li.org'})
+        if verdict in ('reserved', 'dotless'):
+            emit('invalid-language-team', s(v))
+        elif verdict == 'boilerplate':
+            if not template:
+                emit('boilerplate-in-language-team', s(v))
+        else:
+            same = [w for w in distinct('Last-Translator') if parseaddr(w) == a]
+            if same:
+                emit('language-team-equal-to-last-translator', s(v), s(same[-1]))
+    return out
+
+def counter_of_calls(calls):
+    c = collections.Counter()
+    for name, extra in calls:
+        c[(name, tuple(canon_extra(x) for x in extra))] += 1
+    return c
+
+def show_counter(c):
+    def dec(x):
+        k, _, h = x.partition(':')
+        return k + ':' + repr('' if h == '-' else ''.join(chr(int(t, 16)) for t in h.split('.')))
+    return sorted(f'{n}x {name}({", ".join(dec(x) for x in extras)})' for (name, extras), n in c.items())
+
+def prop_case(case):
+    """the property on one case: real header stages vs the reference rule set.  None = holds; else a replay dict with `key`."""
+    r = real_all(case)
+    base = {'input': {'kind': case['kind'], 'comments': case['comments'], 'entries': case['entries'], 'context_language': case['language'],
+                      'now': NOW.isoformat()},
+            'how': 'check_comments, check_headers, check_mime, check_dates, check_project, check_translator of lib.check.Checker on a synthetic ctx '
+                   '(tools/checks/hdr_common.py real_all); reference = hdr_common.ref_tags'}
+    if r[0] == 'err':
+        return dict(base, kind=f'a header check raised {r[1]}', key=f'C15:crash:{r[1]}',
+                    tags_before_the_exception=show_counter(counter_of_calls(r[2])))
+    try:
+        ref = ref_tags(case)
+    except Exception as exc:
+        return None
+    if ref is None:
+        return None
+    got = counter_of_calls(r[1])
+    if got != ref:
+        missing = ref - got
+        extra = got - ref
+        names = sorted({n for (n, _e) in list(missing) + list(extra)})
+        return dict(base, kind='header tags differ from the documented rule set', key='C15:tags-differ:' + ','.join(names),
+                    reported_but_not_due=show_counter(extra), due_but_not_reported=show_counter(missing))
+    return None
+
+def shrink_case(case, bad):
+    """greedy reduction of a failing case: drop entries, header lines, comment lines, flags while `bad(case)` stays true"""
+    import copy
+    cur = copy.deepcopy(case)
+    def attempt(c):
+        try:
+            return bad(c)
+        except Exception:
+            return False
+    changed = True
+    while changed:
+        changed = False
+        for i in range(len(cur['entries'])):
+            c = copy.deepcopy(cur); del c['entries'][i]
+            if attempt(c):
+                cur = c; changed = True; break
+        if changed:
+            continue
+        for i, e in enumerate(cur['entries']):
+            for fieldname in ('msgstr', 'msgstr0'):
+                t = e[fieldname]
+                if not t:
+                    continue
+                ls = t.split('\n')
+                for j in range(len(ls)):
+                    c = copy.deepcopy(cur)
+                    c['entries'][i][fieldname] = '\n'.join(ls[:j] + ls[j + 1:])
+                    if attempt(c):
+                        cur = c; changed = True; break
+                if changed:
+                    break
+            if changed:
+                break
+            for key, empty in (('flags', []), ('occurrences', []), ('plural', None)):
+                if e[key]:
+                    c = copy.deepcopy(cur); c['entries'][i][key] = empty
+                    if attempt(c):
+                        cur = c; changed = True; break
+            if changed:
+                break
+        if changed:
+            continue
+        if cur['comments']:
+            ls = cur['comments'].split('\n')
+            for j in range(len(ls)):
+                c = copy.deepcopy(cur); c['comments'] = '\n'.join(ls[:j] + ls[j + 1:])
+                if attempt(c):
+                    cur = c; changed = True; break
+        if not changed and cur['language'] is not None:
+            c = copy.deepcopy(cur); c['language'] = None
+            if attempt(c):
+                cur = c; changed = True
+    return cur
+
+# ------------------------------------------------------------------ end to end: files on disk through Checker.check()
+
+STAGES = ('check_comments', 'check_headers', 'check_language', 'check_plurals', 'check_mime', 'check_dates', 'check_project',
+          'check_translator', 'check_messages')
+OURS = ('check_comments', 'check_headers', 'check_mime', 'check_dates', 'check_project', 'check_translator')
+
+def po_escape(s):
+    out = ''
+    for ch in s:
+        if ch == '\\': out += '\\\\'
+        elif ch == '"': out += '\\"'
+        elif ch == '\n': out += '\\n'
+        elif ch == '\t': out += '\\t'
+        else: out += ch
+    return out
+
+def file_safe_text(t):
+    return all((' ' <= c <= '~') or c in '\n\t' for c in t)
+
+def file_safe(case):
+    """can the case be written as a PO / MO file that the loader reads back as intended (ASCII text, simple shapes)"""
+    kind = case['kind']
+    if not file_safe_text(case['comments']) or '\t' in case['comments']:
+        return False
+    if any(l != l.strip() or l.startswith(('.', ':', ',', '|', '~')) for l in case['comments'].split('\n')):
+        return False
+    for e in case['entries']:
+        for t in (e['msgid'], e['msgctxt'] or '', e['plural'] or '', e['msgstr'] or '', e['msgstr0'] or ''):
+            if not file_safe_text(t):
+                return False
+        if e['plural'] is None and e['msgstr0'] is not None:
+            return False
+        if e['plural'] is not None and e['msgstr0'] is None:
+            return False
+        if e['plural'] is not None and e['msgstr']:
+            return False
+        for f in e['flags']:
+            if not f or f != f.strip() or ',' in f or not file_safe_text(f) or '\n' in f or '\t' in f:
+                return False
+        for p, l in e['occurrences']:
+            if not p or not l.isdigit() or ' ' in p or ':' in p or not file_safe_text(p) or '\n' in p or '\t' in p:
+                return False
+        if kind == 'mo' and (e['flags'] or e['occurrences'] or e['obsolete'] or (e['msgctxt'] is not None and e['msgctxt'] == '')):
+            return False
+        if e['obsolete'] and (e['occurrences'] or e['plural'] is not None):
+            return False
+    if kind == 'mo':
+        if case['comments']:
+            return False
+        keys = [(e['msgctxt'], e['msgid']) for e in case['entries']]
+        if len(set(keys)) != len(keys):
+            return False
+    return True
+
+def po_bytes(case):
+    out = ''
+    if case['comments']:
+        for l in case['comments'].split('\n'):
+            out += ('# ' + l).rstrip(' ') + '\n'
+    first = True
+    for e in case['entries']:
+        if not first or case['comments']:
+            out += '\n' if not first else ''
+        first = False
+        pre = '#~ ' if e['obsolete'] else ''
+        for p, l in e['occurrences']:
+            out += f'#: {p}:{l}\n'
+        if e['flags']:
+            out += '#, ' + ', '.join(e['flags']) + '\n'
+        if e['msgctxt'] is not None:
+            out += f'{pre}msgctxt "{po_escape(e["msgctxt"])}"\n'
+        out += f'{pre}msgid "{po_escape(e["msgid"])}"\n'
+        if e['plural'] is not None:
+            out += f'{pre}msgid_plural "{po_escape(e["plural"])}"\n'
+            out += f'{pre}msgstr[0] "{po_escape(e["msgstr0"] or "")}"\n'
+        else:
+            out += f'{pre}msgstr "{po_escape(e["msgstr"] or "")}"\n'
+    return out.encode('ascii')
+
+def mo_bytes(case):
+    from gen import mo as GM
+    cat = []
+    for e in case['entries']:
+        ctxt = None if e['msgctxt'] is None else e['msgctxt'].encode('ascii')
+        plural = None if e['plural'] is None else e['plural'].encode('ascii')
+        forms = [(e['msgstr0'] if e['plural'] is not None else e['msgstr'] or '').encode('ascii')]
+        cat.append((ctxt, e['msgid'].encode('ascii'), plural, forms))
+    lay = dict(be=False, major=0, minor=0, nsysdep=0, hash=0, order='ktp', pad=0, share=False, pool='kv', gap=0)
+    return GM.serialize(cat, lay)
+
+def snapshot(file):
+    out = []
+    for e in file:
+        out.append({'msgid': e.msgid, 'msgctxt': e.msgctxt, 'obsolete': bool(e.obsolete), 'occurrences': [tuple(o) for o in e.occurrences],
+                    'plural': e.msgid_plural, 'msgstr': e.msgstr or '', 'msgstr0': e.msgstr_plural.get(0) if e.msgstr_plural else None,
+                    'flags': list(e.flags)})
+    return out
+
+def run_file(path):
+    """real `Checker(path).check()`: ('ok', header-stage calls, str(ctx.language)|None, loaded entries, loaded comments, other tags)"""
+    import argparse
+    k, misc = M()[2], M()[4]
+    calls = []
+    info = {'language': None, 'entries': None, 'comments': None}
+    stage = [None]
+    class Cap(k.Checker):
+        def tag(self, tagname, *extra):
+            calls.append((stage[0], tagname, extra))
+    def wrap(name):
+        orig = getattr(k.Checker, name)
+        def method(self, ctx, *a, **kw):
+            stage[0] = name
+            try:
+                if name == 'check_comments':
+                    info['comments'] = ctx.file.header
+                    info['entries'] = snapshot(ctx.file)
+                return orig(self, ctx, *a, **kw)
+            finally:
+                if name == 'check_language':
+                    lang = getattr(ctx, 'language', None)
+                    info['language'] = None if lang is None else str(lang)
+                stage[0] = None
+        return method
+    for name in STAGES:
+        setattr(Cap, name, wrap(name))
+    options = argparse.Namespace(ignore_tags=set(), fake_root=None, file_type=None, language=None, unpack_deb=False, jobs=1)
+    saved = getattr(misc, 'utc_now', None)
+    misc.utc_now = lambda: NOW
+    try:
+        Cap(path, options=options).check()
+    except Exception as exc:
+        return ('err', type(exc).__name__, [(n, x) for s, n, x in calls if s in OURS], info)
+    finally:
+        misc.utc_now = saved
+    return ('ok', [(n, x) for s, n, x in calls if s in OURS], info, [n for s, n, x in calls if s is None])
+
+def norm_entries(es):
+    return [{**e, 'msgstr': e['msgstr'] or '', 'occurrences': [tuple(o) for o in e['occurrences']]} for e in es]
+
+def e2e(cases, workdir):
+    """[(case with the language the real check_language found, impl line)] for the cases whose file loads as intended"""
+    out, skipped = [], collections.Counter()
+    for i, case in enumerate(cases):
+        kind = case['kind']
+        try:
+            data = mo_bytes(case) if kind == 'mo' else po_bytes(case)
+        except Exception:
+            skipped['unwritable'] += 1
+            continue
+        path = os.path.join(workdir, f'f{i}.{kind}')
+        with open(path, 'wb') as f:
+            f.write(data)
+        r = run_file(path)
+        info = r[3] if r[0] == 'err' else r[2]
+        if info['entries'] is None:
+            skipped['not-loaded:' + ','.join(sorted(set(r[3])) if r[0] == 'ok' else [r[1]])] += 1
+            continue
+        want = norm_entries(case['entries'])
+        if kind == 'mo':
+            for e in want:
+                e['msgstr0'] = e['msgstr0'] if e['plural'] is not None else None
+        if info['entries'] != want or (info['comments'] or '') != case['comments']:
+            skipped['loaded-differently'] += 1
+            continue
+        c2 = dict(case, language=info['language'])
+        out.append((c2, 'ok ' + canon_calls(r[1]) if r[0] == 'ok' else 'err crash'))
+    return out, skipped
